@@ -261,7 +261,37 @@ func c10Worker(ctx *rt.Ctx, job *rt.Job) []*rt.Violation {
 				return vs
 			}
 		}
-		ctx.Cov.Sample(1, map[string]any{"space": "wide", "widths": []int{65, 201, 300, 1001, 1500}, "depths": []int{65, 201, 300}})
+		// long values around 2^15 and 2^16 bytes (plain, all quotes, all newlines)
+		for _, n := range []int{32767, 32768, 65533, 65534, 65535, 65536, 65537, 70000, 131072} {
+			for _, unit := range []string{"x", `"`, "\n", "é"} {
+				v := strings.Repeat(unit, n/len(unit))
+				if !check(c10Case{Tree: model.And(model.Eq("a", v), model.Eq("b", "y"))}, true) {
+					return vs
+				}
+			}
+		}
+		// column names that are prefixes of each other with values that make name+value coincide, formatted one after the
+		// other in one process, in both orders (a formatter may remember what it printed before)
+		pl := []*model.Expr{model.Eq("ab", "c"), model.Eq("a", "bc"), model.Eq("c1", "0"), model.Eq("c10", ""), model.Eq("abc", ""), model.Eq("c", "10")}
+		for round := 0; round < 2; round++ {
+			for i := range pl {
+				l := pl[i]
+				if round == 1 {
+					l = pl[len(pl)-1-i]
+				}
+				if !check(c10Case{Tree: l}, true) || !check(c10Case{Tree: model.Not(l)}, true) {
+					return vs
+				}
+			}
+		}
+		for _, l1 := range pl {
+			for _, l2 := range pl {
+				if !check(c10Case{Tree: model.Or(l1, model.Not(l2))}, true) {
+					return vs
+				}
+			}
+		}
+		ctx.Cov.Sample(1, map[string]any{"space": "wide", "widths": []int{65, 201, 300, 1001, 1500}, "depths": []int{65, 201, 300}, "value_lengths": []int{32767, 32768, 65533, 65534, 65535, 65536, 65537, 70000, 131072}})
 	case "placeholders":
 		for _, pnum := range []int{1, 2, 9, 10, 99, 1000, 2147483646, 2147483647} {
 			l := model.Eq("a", fmt.Sprintf("$%d", pnum))
